@@ -179,6 +179,8 @@ def run_case(ctx, case):
     st = (lambda v: v.astype(np.uint16)) if case.get('ustore') else (lambda v: v.copy())
     a = RDMs(st(v1)) if as_rdms else st(v1)
     b = RDMs(st(v2)) if as_rdms else st(v2)
+    if as_rdms:    # ... which may be copies / unpickled / rebuilt from their dict form
+        a, b = gen.derived(rng, a)[0], gen.derived(rng, b)[0]
     # half of the covariance arguments arrive in a preallocated buffer that is overwritten from case to case (same
     # object, new values), the other half as fresh arrays
     how = int(rng.integers(3))     # ... or as a Fortran-ordered array; whichever way, the caller's array stays as it was
